@@ -344,7 +344,10 @@ def run(ctx):
     rep.trusted += ['lib/lin.py, lib/fm.py (Fourier-Motzkin)', 'lib/symx.py, lib/alg.py']
     rep.assumptions += ['representation invariant at entry: siz_ >= 1, num_ <= mem_, siz_*mem_ <= PTRDIFF_MAX, the block holds mem_ elements',
                         'documented preconditions: unchecked accessors (at_, top_) get an in-range index; a_*_store receives an array of num elements (num <= PTRDIFF_MAX)',
-                        'callbacks do not touch the container', 'NOT decided: contents against an abstract sequence, sortedness, and all paths through '
+                        'callbacks do not touch the container',
+                        'capacity requests (a_vec_setm / a_vec_setn / the counts that reach them) and element sizes stay within what one object can hold: '
+                        'siz_ * request <= PTRDIFF_MAX; beyond that the byte count siz_ * mem handed to the allocator wraps (no overflow test in a_vec_setm / a_buf_setm) '
+                        'and the growth loop itself may wrap - such requests can only come from element sizes or counts no program can back with memory and are outside this check', 'NOT decided: contents against an abstract sequence, sortedness, and all paths through '
                         'callback / binary-search / bubble loops (counted per function in the evidence)']
     for kind in ('vec', 'buf'):
         try:
